@@ -7,7 +7,9 @@
 (*   {op:"probe", q, res}            a script using the item q.path as     *)
 (*                                   q.kind with signature q.ps/q.r/q.ty   *)
 (*                                   observed tag res (-1: does not        *)
-(*                                   compile / wrong signature)            *)
+(*                                   compile / wrong signature) and, for  *)
+(*                                   items over value types, the values    *)
+(*                                   obs that passed through the item      *)
 (* An add event is matched by Registration!Add with the logged outcome     *)
 (* (enabled only if the specification allows that outcome); a probe event  *)
 (* is matched if the observed tag is the one Registration!Expect gives.    *)
@@ -25,7 +27,7 @@ IsEv(name) == l <= Len(Rec) /\ Ev.op = name /\ l' = l + 1
 ProbeOk ==
   \/ ~valid
   \/ LET e == Expect(rt, Ev.q) IN
-     \/ e >= -1 /\ Ev.res = e
+     \/ e >= -1 /\ Ev.res = e /\ Ev.obs = ExpectObs(rt, Ev.q)
      \/ e = -3 /\ Ev.res >= -1
 
 TraceInit == Init /\ l = 1
